@@ -119,3 +119,13 @@ void h_wait(void) {
   VASSERT(POST_wait(r), "H: one arrival; serial iff arrival number is a multiple of count; serial wakes count-1 once; others park once and return after the round is full");
   VCANARY("barrier_wait can return");
 }
+/* init: from ANY memory content (a lock placed in recycled memory) the initialiser establishes the state every proof above starts from */
+void h_init(void) {
+  static fiber_barrier_t X; memset(&X, (int)verif_u64(), sizeof(X));
+  uint32_t n = (uint32_t)verif_u64(); VASSUME(n > 0);
+  int r = fiber_barrier_init(&X, n);
+  if (r == FIBER_SUCCESS) VASSERT(X.count == n && X.counter == 0 && (X.waiters[0].head != 0 && X.waiters[0].head == X.waiters[0].tail && X.waiters[0].head->next == 0) && (X.waiters[1].head != 0 && X.waiters[1].head == X.waiters[1].tail && X.waiters[1].head->next == 0),
+                                  "H: C12 init: round 0, nobody arrived, the requested count, both wait lists empty and usable, whatever the memory held");
+  else VASSERT(r == FIBER_ERROR, "H: C12 init reports an allocation failure as FIBER_ERROR");
+  VCANARY("init can return");
+}
